@@ -53,7 +53,15 @@ fn run(case: &Case, st: &mut Stats) -> Result<(), String> {
     } else {
         case.route
     };
-    let mut r = Reader::new_route(api, route, case.req_v10, case.req_close, head.as_bytes())?;
+    let mut r = match Reader::new_route(api, route, case.req_v10, case.req_close, head.as_bytes()) {
+        Ok(r) => r,
+        // Content-Length: 0 on the single-call API: no reader at all is as good as an already-ended one (nothing to deliver)
+        Err(e) if case.n == Some(0) && api == Api::Call && e == "call has no body" => {
+            st.class("zero_length_body_without_reader");
+            return Ok(());
+        }
+        Err(e) => return Err(e),
+    };
     if route > 0 && api == Api::Flow {
         st.class("body_reached_after_interim_100_or_split_head");
     }
